@@ -89,6 +89,11 @@ def origins(prog, fn, v, _seen=None, depth=0):
                     out.add(('other', show(v, 3)))
             if out:
                 return out
+        if fn.is_closure and depth <= 4:
+            cap = captured_value(prog, fn, v)
+            if cap is not None:
+                # a captured variable: what the defining function put into the closure
+                return origins(prog, cap[0], cap[1], None, depth + 1)
         rf = record_field_origins(prog, fn, v, _seen, depth)
         if rf is not None:
             return rf
@@ -156,6 +161,27 @@ def origins(prog, fn, v, _seen=None, depth=0):
     if k == 'update':
         return origins(prog, fn, v.args[0], _seen, depth) | origins(prog, fn, v.args[2], _seen, depth)
     return {('other', k)}
+
+
+def captured_value(prog, fn, v):
+    """if load v of closure fn reads a captured variable: (defining Fn, captured Val there)"""
+    root = strip(v.args[0])
+    if not (root.kind == 'param' and root.args[0] == 1):
+        return None
+    flds = v.fields()
+    if len(flds) != 1 or not flds[0].startswith('upvar'):
+        return None
+    n = int(flds[0][5:])
+    parent = prog.fns.get(fn.parent)
+    if parent is None:
+        return None
+    for x in parent.body._vals:
+        if x.kind == 'agg' and x.extra.get('akind') == 'closure' and x.extra.get('path') == fn.path and n < len(x.args):
+            pv = strip(x.args[n])
+            while pv.kind == 'ref' and not pv.fields():
+                pv = strip(pv.args[0])
+            return parent, pv
+    return None
 
 
 def record_writes(prog):
